@@ -1,5 +1,5 @@
 (* C02 — Path parameters are exactly the substrings the pattern captured. Property theorems only. *)
-From Rux Require Import Base Rx RxFacts Pattern Pat PatFacts Cache Table TableFacts PatTable SelectFacts BuildFacts.
+From Rux Require Import Base Rx RxFacts Pattern Pat PatFacts Cache Table TableFacts PatTable SelectFacts BuildFacts RoundTrip TableLink RestLookup.
 
 (* For every pattern of the documented grammar (any number of variables with default / global / custom
    regexes without capture groups, nested optional tails) and every path its compiled expression matches:
@@ -36,9 +36,21 @@ Theorem C02_cached : forall rt m p, coherent rt -> no_slash m -> rooted p ->
   fst (match_ rt m p) = fst (match_ (nocache rt) m p) /\ coherent (snd (match_ rt m p)).
 Proof. exact match_transparent. Qed.
 
+(* at the level of the router: whatever route a lookup selects, a static route is reported without parameters and a dynamic
+   route with exactly the parameters of ITS OWN pattern on the request path (so C02_params applies to what handlers receive);
+   by TableLink.string_level_lookup the router built from the pattern texts reports the same *)
+Theorem C02_router_params : forall o rs m p i r, o_caching o = false -> Forall wf_sroute rs -> no_slash m -> rooted p ->
+  spec_select rs m p = Some i -> nth_error rs i = Some r ->
+  match s_pat r with
+  | None => fst (match_ (build o rs) m p) = LHit i None
+  | Some pt => exists ps, fst (match_ (build o rs) m p) = LHit i (Some ps) /\ pat_params pt p = Some ps
+  end.
+Proof. exact build_lookup_params. Qed.
+
 Print Assumptions C02_captures.
 Print Assumptions C02_params.
 Print Assumptions C02_unique.
 Print Assumptions C02_matches_iff.
 Print Assumptions C02_static.
 Print Assumptions C02_cached.
+Print Assumptions C02_router_params.
